@@ -59,25 +59,37 @@ TolP(cls, fi) == IF cls = 0 THEN Mul(TolSer, Trunc(fi)) ELSE TolEx
 TolK(cls, fi) == IF cls = 0 THEN Mul(TolKs, Trunc(fi)) ELSE TolKe
 TolG(cls, fi) == IF cls = 0 THEN Mul(TolGs, Trunc(fi)) ELSE TolGe
 
-\* Convergence returned by Forward.  Named guard ExactGammaNearPole (FINDING, notes/C06.md): TransverseMercatorExact::Forward
-\* loses the convergence within one degree of a pole like 1 / (distance to the pole) although gamma ~ lam is perfectly
-\* conditioned there (the series form is accurate to 1e-14 degree); inside one degree the bound is scaled by 1 degree / rho.
-GFwd(cls, fi, rho) ==
-  IF cls = 0 THEN TolG(0, fi)
-  ELSE IF rho >= 1000000 THEN TolGe
-  ELSE IF rho <= 0 THEN Cap
-  ELSE Mul(TolGe, (1000000 \div rho) + 1)
+\* Convergence returned by Forward: the plain bound everywhere.  FINDING (notes/C06.md, known_findings.json
+\* "tmx-gamma-nearpole"): TransverseMercatorExact::Forward loses the convergence near a pole like 1 / (distance to the pole);
+\* those lines are REJECTED here and matched structurally by their input class (field kf), nothing is scaled.
+GFwd(cls, fi, rho) == TolG(cls, fi)
 \* Convergence returned by Reverse (named guard PoleConditioning): gamma ~ lon is ill-conditioned as a function of (x, y) near
 \* a pole: a position error tp (pmW) turns the direction to the pole by tp / (a rho); in fdeg that is tp * 515000 / rho[udeg].
 GRev(tg, tp, rho) ==
   IF rho < 1000 THEN Cap
   ELSE LET m == Mul(tp, 515) IN IF m >= Cap THEN Cap ELSE Add(tg, m \div (rho \div 1000))
 
-\* Named guard ExtScale (FINDING, notes/C06.md): in the lower part of the extended domain (extendp, lat < 0) the accuracy of
-\* TransverseMercatorExact degrades in proportion to the scale k (the south pole is at infinity): about 0.5 nm * k / k0 at
-\* WGS84 scale.  The documented bound is required for k / k0 < 8 and scaled by 2^(floor(log2(k / k0)) - 2) beyond; nothing
-\* is required for k / k0 >= 2^24.
-ScaleF(kl) == IF kl <= 2 THEN 1 ELSE IF kl >= 24 THEN Cap ELSE 2 ^ (kl - 2)
+\* FINDING (notes/C06.md, known_findings.json "tmx-ext-lower"): in the lower part of the extended domain (extendp, lat < 0,
+\* |lam| >= 90 (1 - e)) the accuracy of TransverseMercatorExact degrades in proportion to the scale k.  The documented bound
+\* is required there as everywhere else; the rejected lines are matched structurally by their input class (field kf).
+
+(* ------------------------------ known-finding classes --------------------- *)
+\* kf is computed by the driver from the inputs only; the spec re-derives it from the quantised inputs it sees.  A record of
+\* class "tmx-gamma-nearpole" is written as two lines: part "pos" (kf "none": every law except those on the gamma that Forward
+\* of the exact class returned) and part "gam" (only those laws); part "all" otherwise.
+NearPoleQ(r) == AbsI(r.latq) >= 89000000 /\ AbsI(r.latq) <= 90000000
+NearPoleStrictQ(r) == AbsI(r.latq) > 89000000 /\ AbsI(r.latq) < 90000000
+DoPos(r) == r.part \in {"all", "pos"}
+DoGam(r) == r.part \in {"all", "gam"}
+\* exg: the record evaluates gamma from Forward of the exact class;  lowMay / lowMust: extendp and the point is in the lower
+\* extended region, judged on the quantised latitude (lat in (-5e-7, 0) is quantised to 0: either label is accepted there)
+KfOK(r, exg, lowMay, lowMust) ==
+  LET ext == r.kf = "tmx-ext-lower" IN
+  /\ r.kf \in {"none", "tmx-gamma-nearpole", "tmx-ext-lower"} /\ r.part \in {"all", "pos", "gam"}
+  /\ (r.part = "gam") = (r.kf = "tmx-gamma-nearpole")
+  /\ (r.part \in {"pos", "gam"} => exg /\ NearPoleQ(r))
+  /\ (r.part = "all" /\ exg /\ ~ext => ~NearPoleStrictQ(r))
+  /\ (ext => lowMay) /\ (lowMust => ext)
 
 (* ------------------------------ sphere lattice --------------------------- *)
 \* V = <<nearest integer, deviation in 1e-15>>; 2000000001 = not finite
@@ -121,15 +133,17 @@ SymOK(r) ==
       fd == IF r.bk = "eq" /\ e.b = 1 THEN MinI(r.fd, r.fdm) ELSE r.fd      \* EquatorFarSide
       kg == cls = 0 \/ r.sing >= SingK
   IN
-  /\ CfgOK(r) /\ cls \in 0..2
+  /\ CfgOK(r) /\ cls \in 0..2 /\ KfOK(r, cls >= 1, FALSE, FALSE)
   /\ e \in Elem /\ r.out = DrvOut(Pred(e))                         \* the transform the driver applied is the model's
-  /\ dom =>
+  /\ (dom /\ DoPos(r)) =>
        /\ r.fin /\ r.rfin /\ r.rng
-       /\ (pure => r.fbit /\ r.rbit)
+       /\ (pure => r.rbit /\ (r.part = "all" => r.fbit))
        /\ Le(fd, tp) /\ Le(r.rd, tp)
        /\ kg => /\ Le(r.fk, tk) /\ Le(r.rk, tk)
-                /\ Le(r.fg, Mul(GFwd(cls, fi, rho), 2))
                 /\ Le(r.rg, Mul(GRev(TolG(cls, fi), Mul(TolP(cls, fi), bf), rho), 2))
+  /\ (dom /\ DoGam(r)) =>
+       /\ (pure /\ r.part = "gam" => r.fbit)
+       /\ (kg => Le(r.fg, Mul(GFwd(cls, fi, rho), 2)))
 
 (* ------------------------------ laws ------------------------------------- *)
 \* T2: series = exact = independent high-order evaluation of the Gauss-Krueger mapping (Krueger series to order 30 from
@@ -140,50 +154,52 @@ CmpOK(r) ==
       orc == r.otr <= 10                        \* the oracle's own truncation estimate is below 0.01 nm
       so == IF EqBack(r) THEN MinI(r.so, r.som) ELSE r.so
   IN
-  /\ CfgOK(r) /\ r.cls = 0 /\ r.ex = FPos(fi)
-  /\ (S35(r) => r.sfin)
-  /\ (S35(r) /\ orc) =>
+  /\ CfgOK(r) /\ r.cls = 0 /\ r.ex = FPos(fi) /\ KfOK(r, r.ex, FALSE, FALSE)
+  /\ DoPos(r) => (S35(r) => r.sfin)
+  /\ (DoPos(r) /\ S35(r) /\ orc) =>
        /\ Le(so, ts) /\ Le(r.sog, TolG(0, fi)) /\ Le(r.sok, TolK(0, fi))
        /\ r.srfin /\ Le(r.rso, ts) /\ Le(r.rsok, TolK(0, fi)) /\ Le(r.rsog, GRev(TolG(0, fi), ts, rho))
   /\ r.ex =>
        LET eo == IF EqBack(r) THEN MinI(r.eo, r.eom) ELSE r.eo IN
-       /\ r.efin
-       /\ orc => /\ Le(eo, te) /\ r.erfin /\ Le(r.reo, te)
-                 /\ (r.sing >= SingK =>
-                       /\ Le(r.eok, TolKe) /\ Le(r.reok, TolKe)
-                       /\ Le(r.eog, GFwd(1, fi, rho)) /\ Le(r.reog, GRev(TolGe, te, rho)))
-       /\ S35(r) => /\ Le(r.se, Add(ts, te))
-                    /\ Le(r.seg, Add(TolG(0, fi), GFwd(1, fi, rho))) /\ Le(r.sek, Add(TolK(0, fi), TolKe))
+       /\ DoPos(r) =>
+            /\ r.efin
+            /\ orc => /\ Le(eo, te) /\ r.erfin /\ Le(r.reo, te)
+                      /\ (r.sing >= SingK => Le(r.eok, TolKe) /\ Le(r.reok, TolKe) /\ Le(r.reog, GRev(TolGe, te, rho)))
+            /\ S35(r) => Le(r.se, Add(ts, te)) /\ Le(r.sek, Add(TolK(0, fi), TolKe))
+       /\ DoGam(r) =>                                \* the convergence returned by Forward of the exact class
+            /\ (orc /\ r.sing >= SingK => Le(r.eog, GFwd(1, fi, rho)))
+            /\ (S35(r) => Le(r.seg, Add(TolG(0, fi), GFwd(1, fi, rho))))
 
 \* T1: Forward o Reverse and Reverse o Forward
 InImage(r) == AbsI(r.latq) >= 100 \/ AbsI(r.lamq) < 45000000 \/ r.cls >= 3     \* the rounded grid point is an image point
 RtOK(r) ==
   LET cls == r.cls  fi == r.fi  b == BF(Back(r))  rho == Rho(r)
       low == cls >= 3 /\ r.lower
-      kl == MaxI(KL(r.kl), KL(r.kl3))
-      sf == IF low THEN ScaleF(kl) ELSE 1
-      tp == Mul(Mul(TolP(cls, fi), 2 * b), sf)
-      tk == Mul(Mul(TolK(cls, fi), 2), sf)
-      tg == Mul(Add(GFwd(cls, fi, rho), GRev(TolG(cls, fi), Mul(TolP(cls, fi), b), rho)), sf)
-      dom == (cls = 0 => S35(r)) /\ (low => kl < 24)
+      tp == Mul(TolP(cls, fi), 2 * b)
+      tk == Mul(TolK(cls, fi), 2)
+      tg == Add(GFwd(cls, fi, rho), GRev(TolG(cls, fi), Mul(TolP(cls, fi), b), rho))
+      dom == cls = 0 => S35(r)
       \* EquatorFarSide: next to the far-side equator the rounded northing may exceed 2 y_pole; Reverse accepts it and
       \* Forward answers with the canonical representation over the other pole, so the grid point is not compared there
       dom2 == (IF cls = 0 THEN r.ang3 <= Ang35 ELSE InImage(r)) /\ ~(Back(r) /\ AbsI(r.lat3) < 100)
       kg == cls = 0 \/ r.sing >= SingK
       rfd == r.rfd
   IN
-  /\ CfgOK(r)
-  /\ dom => /\ r.fin /\ r.rng /\ Le(r.frd, tp)
-            /\ (kg => Le(r.frk, tk) /\ Le(r.frg, tg))
-  /\ (dom /\ dom2) => /\ r.fin2 /\ Le(rfd, tp)
-                      /\ (kg => Le(r.rfk, tk) /\ Le(r.rfg, tg))
+  /\ CfgOK(r) /\ KfOK(r, cls >= 1, low /\ r.latq <= 0, low /\ r.latq < 0)
+  /\ (dom /\ DoPos(r)) => /\ r.fin /\ r.rng /\ Le(r.frd, tp)
+                          /\ (kg => Le(r.frk, tk))
+  /\ (dom /\ dom2 /\ DoPos(r)) => /\ r.fin2 /\ Le(rfd, tp)
+                                   /\ (kg => Le(r.rfk, tk))
+  \* gamma of Forward against gamma of Reverse at the same point (both calls)
+  /\ (dom /\ DoGam(r) /\ kg) => Le(r.frg, tg)
+  /\ (dom /\ dom2 /\ DoGam(r) /\ kg) => Le(r.rfg, tg)
 
 \* T4: the central meridian (and its far side) is mapped with constant scale k0 at true meridian distance
 CmOK(r) ==
   LET cls == r.cls  fi == r.fi  b == BF(r.back)
       tp == Mul(TolP(cls, fi), b)
   IN
-  /\ CfgOK(r)
+  /\ CfgOK(r) /\ r.kf = "none" /\ r.part = "all"
   /\ (cls = 0 => SeriesOK(fi)) =>
        /\ r.fin /\ r.ysgn
        /\ Le(r.xq, tp) /\ Le(r.gq, TolG(cls, fi)) /\ Le(r.kq, TolK(cls, fi))
@@ -193,7 +209,7 @@ CmOK(r) ==
 \* poles
 PlOK(r) ==
   LET cls == r.cls  fi == r.fi  tp == TolP(cls, fi) IN
-  /\ CfgOK(r) /\ AbsI(r.latq) = 90000000
+  /\ CfgOK(r) /\ AbsI(r.latq) = 90000000 /\ r.kf = "none" /\ r.part = "all"
   /\ (cls = 0 => SeriesOK(fi)) =>
        /\ r.fin /\ Le(r.xq, tp) /\ Le(r.yq, tp) /\ Le(r.ym, Add(tp, TolEll))
        /\ Le(r.gq, TolG(cls, fi)) /\ Le(r.kq, TolK(cls, fi))
@@ -205,22 +221,20 @@ CrOK(r) ==
              /\ (r.cls = 0 => S35(r)) /\ (r.cls > 0 => r.sing >= 1000000)
              \* the northing of the equator's far side jumps (EquatorFarSide); keep the stencil off that line
              /\ (AbsI(r.latq) >= 5000 \/ AbsI(r.lamq) < 45000000 \/ r.cls >= 3)
-             /\ (r.cls >= 3 /\ r.lower => KL(r.kl) <= 4)
   IN
-  /\ CfgOK(r)
+  /\ CfgOK(r) /\ KfOK(r, FALSE, r.cls >= 3 /\ r.lower /\ r.latq <= 0, r.cls >= 3 /\ r.lower /\ r.latq < 0)
   /\ dom => r.fin /\ Le(r.cr1, FDTol) /\ Le(r.cr2, FDTol) /\ Le(r.mk, FDTol) /\ Le(r.rg, FDTol)
 
 \* T6: the UTM() singletons equal fresh (WGS84, 0.9996) objects bit for bit
-UtmOK(r) == r.sf /\ r.sr /\ r.ef /\ r.er /\ r.par
+UtmOK(r) == r.sf /\ r.sr /\ r.ef /\ r.er /\ r.par /\ r.kf = "none" /\ r.part = "all"
 
 \* extendp = true: equals extendp = false on the first quadrant; the image of the extended domain is the documented one
 ExtOK(r) ==
-  /\ CfgOK(r) /\ r.cls \in {3, 4}
+  /\ CfgOK(r) /\ r.cls \in {3, 4} /\ KfOK(r, FALSE, r.lower /\ r.latq <= 0, r.lower /\ r.latq < 0)
   /\ IF ~r.lower
      THEN /\ r.fin /\ r.fin2 /\ Le(r.qd, Mul(TolEx, 2))
           /\ Le(r.qg, Mul(GFwd(1, r.fi, Rho(r)), 2)) /\ Le(r.qk, Mul(TolKe, 2))
-     ELSE KL(r.kl) < 24 =>                      \* ExtScale
-            /\ r.fin
+     ELSE   /\ r.fin
             /\ \/ (r.my >= -1 /\ r.mt >= -1 /\ r.mx0 >= -1)
                \/ (r.my <= 1 /\ r.mx >= -1)
 
